@@ -1,37 +1,40 @@
 ------------------------------ MODULE WalkDfs ------------------------------
 (* C11 B layer, part 1: the depth-first walk of verifier/walk.go as a recursive operator.
 
-   DfsPreFix: continueWalking as it was coded up to /repo commit 8c7a49f -
-     emit when the last edge is a root; stop when the last edge has no issuer; stop when
-     len(soFar) >= maxIntermediateCount; iterate current.parentsBySubjectAndKey, i.e. only
-     edges with a recorded issuer, grouped by issuer node; skip a group whose ISSUER node is
-     already in the chain (that no-revisit test looks at the target node, not at the edge's
-     own subject); canAddToChain (CA flag for non-roots, MaxPathLen against len(chain)-1, also
-     for roots).  TLC predicted from this model exactly the defect the real code then showed
-     (known finding C11-revisit-after-self-signed).
-   DfsCoded: the walk as coded since the fix (/repo commit d112422, = proposed_fixes/
-     C11-revisit-after-self-signed.diff): additionally stop when the CURRENT node - the
-     (subject, key) of every candidate edge - is already in the chain.
-   WalkGen.tla evaluates both against the A layer of Walk.tla on every generated case.        *)
+   DfsCoded: continueWalking as coded now (/repo 59a173b) -
+     emit when the last edge is a root; stop when the last edge has no issuer; stop when the
+     CURRENT node - the (subject, key) of every candidate edge - is already in the chain
+     (fix d112422); stop when len(soFar) >= maxIntermediateCount; iterate
+     current.parentsBySubjectAndKey, i.e. the edges with a recorded issuer, grouped by issuer
+     node, skipping a group whose ISSUER node is already in the chain; then iterate
+     current.parentsWithoutIssuer and follow those edges that are roots (fix 59a173b);
+     canAddToChain (CA flag for non-roots, MaxPathLen against len(chain)-1, also for roots).
+   Earlier revisions, kept because TLC predicted from them exactly the two defects the real
+   code then showed:
+     DfsPreFix  (up to 8c7a49f)  no current-node test  -> known finding C11-revisit-after-self-signed
+     DfsPreFix2 (up to 0bbf913)  no second loop        -> known finding C11-root-edge-issuer-absent
+   WalkGen.tla evaluates all three against the A layer of Walk.tla on every generated case.   *)
 EXTENDS Walk
 
 CanAdd(x, p) == (~x.root => x.ca) /\ (x.pathlen >= 0 => Len(p) - 1 <= x.pathlen)
 
-RECURSIVE Dfs(_, _, _)
-Dfs(E, p, fixed) ==
+RECURSIVE Dfs(_, _, _, _)
+Dfs(E, p, fixed, dangroots) ==
   LET last == p[Len(p)]
       cur  == last.issuer
   IN IF last.root THEN {p}
      ELSE IF cur = NoNode THEN {}
      ELSE IF Len(p) >= MaxLen THEN {}
      ELSE IF fixed /\ cur \in Childs(p) THEN {}
-     ELSE UNION {Dfs(E, Append(p, e), fixed) :
+     ELSE UNION {Dfs(E, Append(p, e), fixed, dangroots) :
                    e \in {x \in E : /\ x.child = cur
-                                    /\ x.issuer # NoNode            \* only such edges are in a parents map
-                                    /\ x.issuer \notin Childs(p)    \* test on the target node
+                                    /\ \/ /\ x.issuer # NoNode          \* only such edges are in a parents map
+                                          /\ x.issuer \notin Childs(p)  \* test on the target node
+                                       \/ dangroots /\ x.issuer = NoNode /\ x.root
                                     /\ CanAdd(x, p)}}
 
-DfsPreFix(E, start) == {IdsOf(p) : p \in Dfs(E, <<start>>, FALSE)}
-DfsCoded(E, start)  == {IdsOf(p) : p \in Dfs(E, <<start>>, TRUE)}
+DfsPreFix(E, start)  == {IdsOf(p) : p \in Dfs(E, <<start>>, FALSE, FALSE)}
+DfsPreFix2(E, start) == {IdsOf(p) : p \in Dfs(E, <<start>>, TRUE, FALSE)}
+DfsCoded(E, start)   == {IdsOf(p) : p \in Dfs(E, <<start>>, TRUE, TRUE)}
 
 =============================================================================
